@@ -78,9 +78,15 @@ class Ctx:
     def fix_objdump_text(t):
         t = re.sub(r'\s+#.*$', '', t); t = re.sub(r'<[^>]*>', '', t)
         return t
-    def asm(self, lines):
-        """lines: list of ('i'|'a', text) -> list of candidate lists (hex) or ('E', name)"""
+    def asm(self, lines, history=None):
+        """lines: list of ('i'|'a', text) -> list of candidate lists (hex) or ('E', name).
+        history: a list that receives (line, result in given order, result in reversed order) for every line whose result depends on
+        the order in which the lines are assembled within one process (the assembler must be a function of the line)"""
         out = run_impl('impl_asm.py', ['%s %s' % (k, t) for k, t in lines])
+        if history is not None:
+            rev = run_impl('impl_asm.py', ['%s %s' % (k, t) for k, t in reversed(lines)])[::-1]
+            for (k, t), a, b in zip(lines, out, rev):
+                if a != b and not (a[:2] == 'E ' and b[:2] == 'E '): history.append((t, a, b))      # the exception type may depend on the parser's lazy initialisation; rejection itself may not
         res = []
         for o in out:
             if o.startswith('E ') or o.startswith('X '): res.append(('E', o[2:]))
